@@ -15,7 +15,7 @@ open FileTree C07
 /-- Append returns no error and every loop terminates (the model's fuel is never exhausted) -/
 theorem c08_total (w : Nat) (hw : 1 ≤ w) (t : FNode) (cs : List Chunk) (hws : wellSized t = true)
     (hs : tshape w (-1) t = true) : ∃ o, append w t cs = some o :=
-  append_total w hw t cs hws hs
+  append_total true w hw t cs hws (by rw [rootShape_true]; exact hs)
 
 /-- the new file reads as the old content followed by the appended bytes -/
 theorem c08_content (w : Nat) (t : FNode) (cs : List Chunk) (o : AppendOut) (hws : wellSized t = true)
@@ -52,7 +52,8 @@ theorem c08_shape (w : Nat) (hw : 1 ≤ w) (t : FNode) (cs : List Chunk) (o : Ap
   | node fs links =>
     simp only [tshape_node, Bool.and_eq_true] at hs
     simp only [append, getChild] at h
-    exact appendB_shape w hw _ { links := links, filesize := fs } { spl := cs } o hs.2 h
+    rw [← rootShape_true]
+    exact appendB_shape true w hw _ { links := links, filesize := fs } { spl := cs } o hs.2 h
 
 /-- the hypotheses are re-established: the theorems above apply to every iterated append -/
 theorem c08_closed (w : Nat) (hw : 1 ≤ w) (t : FNode) (cs : List Chunk) (o : AppendOut)
@@ -68,7 +69,7 @@ theorem c08_layout_then_append (c : Cfg) (hw : 1 ≤ c.w) (cs₁ cs₂ : List Ch
   obtain ⟨o₁, h₁⟩ := trickleLayout_total c cs₁ hw
   obtain ⟨ws, ct, _⟩ := trickleLayout_spec c cs₁ o₁ h₁
   have sh := trickleLayout_shape c cs₁ o₁ h₁ hw
-  obtain ⟨o₂, h₂⟩ := append_total c.w hw o₁.root cs₂ ws sh
+  obtain ⟨o₂, h₂⟩ := append_total true c.w hw o₁.root cs₂ ws (by rw [rootShape_true]; exact sh)
   exact ⟨o₁, o₂, h₁, h₂, by rw [c08_content c.w _ cs₂ o₂ ws h₂, ct], c08_wellSized c.w _ cs₂ o₂ ws h₂,
     c08_shape c.w hw _ cs₂ o₂ sh h₂⟩
 
